@@ -32,3 +32,4 @@ import RosuModel.Props.C02FinalScroll
 import RosuModel.Props.C02FinalScrollToy
 import RosuModel.Props.C02FinalScrollExact
 import RosuModel.Props.C02Capstone
+import RosuModel.Props.C02CapstoneToy
